@@ -83,7 +83,8 @@ func HandleChatSend(cc *hotline.ClientConn, t *hotline.Transaction) (res []hotli
 	// *** Halcyon does stuff
 	// This is indicated by the presence of the optional field FieldChatOptions set to a value of 1.
 	// Most clients do not send this option for normal chat messages.
-	if t.GetField(hotline.FieldChatOptions).Data != nil && bytes.Equal(t.GetField(hotline.FieldChatOptions).Data, []byte{0, 1}) {
+	// Some clients send the option as a 4 byte integer (see Field.DecodeInt).
+	if chatOption, err := t.GetField(hotline.FieldChatOptions).DecodeInt(); err == nil && chatOption == 1 {
 		formattedMsg = fmt.Sprintf("\r*** %s %s", cc.UserName, t.GetField(hotline.FieldData).Data)
 	}
 
